@@ -38,7 +38,8 @@ m = {
         "enable": "go test -c -tags verif -overlay build/<run>/overlay.json -modfile build/<run>/go.mod (done by ./check on every run, from /repo's working tree)",
         "baseline_off_cmd": "cd /repo && GOFLAGS=-mod=mod go test -vet=off -count=1 -timeout 25m ./...",
         "source_commits": ["8bd2d9b verif hooks: lambda/vhook pause points (no-op without -tags verif) at six sites",
-                           "4022942 verif hooks: pause point invoke.beforeHandlerMutex (no-op without -tags verif)"],
+                           "4022942 verif hooks: pause point invoke.beforeHandlerMutex (no-op without -tags verif)",
+                           "0783417 verif hook: reset.serverCleared pause point (no-op without the verif build tag)"],
         "add_only": True,
     },
     "engines": engines,
